@@ -38,7 +38,13 @@ def handleLine (line : String) : String :=
       | "res" => handleRes args
       | "crash" => handleCrash args
       | "race" => "races=-"   -- C11_table: every shared location of the supported use is disciplined
-      | "conc" => "returned=all open=0"   -- what C10_all_return / C10_after_close say of every schedule
+      | "conc" =>
+        -- what C10_all_return / C10_after_close say of every schedule: every call of every program returns, nothing stays open
+        match args with
+        | _ :: progs :: _ =>
+          let n := ((progs.splitOn "/").map (fun p => ((p.splitOn ",").filter (fun o => !o.isEmpty && !o.startsWith "S")).length)).foldl (· + ·) 0
+          s!"returned={n}/{n} open=0"
+        | _ => "bad-args"
       | _ => "unknown-kind"
     id ++ " " ++ out
   | _ => "? bad-line"
